@@ -19,6 +19,7 @@ RULE = ('E3: every simple triangle/quadrilateral (both directions) and every pol
         '(separating axis + crossing number). Non-trivial: bounding boxes of element and box overlap and no vertex of '
         'the element lies strictly inside the open box (so neither the bbox reject nor the vertex-in-box shortcut decides). '
         'distinct = enumerated (shape,box) pairs (distinct by construction) + distinct E1 cases.')
+RULE += (' Added after the seeded rounds: half of the E1 cases build the array\'s spatial index before the box tests (a cached index must not change any answer).')
 ASSUMPTIONS = ['exact oracle vpbt/oracle_geom.py (self-tested against Liang-Barsky clipping and symmetries at start-up)',
                'polygons valid with holes opposite to the shell; boxes of positive area for line/polygon kinds',
                'coordinates within the exactness bound of the subtype']
